@@ -708,6 +708,60 @@ class ShapeMapTrackerStep(Ob):
         return None if _norm(result["instances"]) == _norm(want) else "instances after the item: %r, expected %r" % (result["instances"], want)
 
 
+class ShapeMapTwoItems(Ob):
+    """The real ShapeMap / ShapeMapItem model with two items whose labels carry a symbolic character (they may or may not coincide) through the real tracker:
+    every node of an item gets that item's label; items sharing a label select the union of their nodes."""
+    functions = ["shexer.model.shape_map.ShapeMap.add_item/yield_items", "ShapeMapItem", "ShapeMapInstanceTracker.track_instances/_solve_targets_of_an_item"]
+
+    def __init__(self, via_ctor):
+        self.via_ctor = via_ctor
+        self.name = "shape_map_two_items/%s" % ("constructor" if via_ctor else "add_item")
+
+    def build(self, ex):
+        l1 = sstr("<http://sh.org/L", free(ex, "l1", 1, c_local), ">")
+        l2 = sstr("<http://sh.org/L", free(ex, "l2", 1, c_local), ">")
+        return dict(items=[([node(ex, "a"), node(ex, "b")], l1), ([node(ex, "c")], l2)])
+
+    def call(self, a):
+        from shexer.core.instances.mappings.shape_map_instance_tracker import ShapeMapInstanceTracker
+        from shexer.model.shape_map import ShapeMap, ShapeMapItem
+
+        class Sel:
+            sgraph = None
+
+            def __init__(self, nodes):
+                self.nodes = nodes
+
+            def get_target_nodes(self):
+                return list(self.nodes)
+        items = [ShapeMapItem(node_selector=Sel(nodes), shape_label=label) for nodes, label in a["items"]]
+        if self.via_ctor:
+            sm = ShapeMap(shape_map_items=items)
+        else:
+            sm = ShapeMap()
+            for it in items:
+                sm.add_item(it)
+        return dict(instances=ShapeMapInstanceTracker(shape_map=sm).track_instances())
+
+    @staticmethod
+    def _ref(items):
+        post = {}
+        for nodes, label in items:
+            for n in nodes:
+                if n not in post:
+                    post[n] = []
+                if label not in post[n]:
+                    post[n].append(label)
+        return post
+
+    def bad(self, a, result):
+        return neg(states_equal(result["instances"], self._ref(a["items"])))
+
+    def check(self, a, result):
+        want = self._ref(a["items"])
+        return None if _norm(result["instances"]) == _norm(want) else "instances %r, expected %r" % (result["instances"], want)
+
+
 class MixedTrackerMerge(Ob):
     """MixedInstanceTracker.track_instances over a class tracker and a shape-map tracker (all_classes_mode / target classes combined with a shape map):
     every node keeps its classes and gains the labels of the shape-map items selecting it - also when the same node is found by both trackers;
@@ -1017,6 +1071,8 @@ def obligations(prop, tier):
         for n in (1, 2):
             for rep in (False, True):
                 out.append(ShapeMapTrackerStep(n, rep))
+        out.append(ShapeMapTwoItems(False))
+        out.append(ShapeMapTwoItems(True))
         for n_ref, n_new in ((1, 1), (2, 1), (2, 2)) + (((3, 2),) if tier != "quick" else ()):
             for clash in (False, True):
                 out.append(MixedTrackerMerge(n_ref, n_new, clash))
